@@ -81,20 +81,33 @@ def g_numberset_size(fx):
     return ok and bool(pushes), 'NumberSet::read_from: num_bits > 256 => Err dominates the allocation; bitmap gets (num_bits+31)/32 words'
 
 
+def _rejects(b, fx, og, edge_pred):
+    """Every switch edge selected by edge_pred leads only to error results: no Ok(..) result of `b` is reachable from it. Returns (n edges, all reject)."""
+    P = Pos(b)
+    oks = [(bb, si) for bb, si, st in b.statements() if st['s'] == 'assign' and st['lhs']['l'] == 0 and not st['lhs'].get('p') and st['rv']['r'] == 'agg' and st['rv'].get('variant') == 'Ok']
+    es = [(s_, t_) for s_, t_, cond, lab in switch_edges(b, fx, og) if edge_pred(cond, lab)]
+    good = bool(oks) and bool(es) and not any(P.can_reach((t_, 0), o) or P.norm((t_, 0)) == P.norm(o) for _s, t_ in es for o in oks)
+    return len(es), good
+
+
 def g_datafrag_sizes(fx):
     b = fx.find('messages::submessages::data_frag::DataFrag::deserialize')
-    cs = comparisons(b)
-    a = any(op in ('Lt',) and 'fragment_size' in names and 1 in consts for _bb, op, names, consts in cs)
-    c = any(op in ('Gt',) and 'fragment_size' in names and 'data_size' in names for _bb, op, names, consts in cs)
-    return a and c, 'DataFrag::deserialize: fragment_size < 1 || fragment_size > data_size => Err'
+    og = Origins(b, summaries=False)
+
+    def is_fs(x):
+        return term_has(x, lambda y: y[0] == 'call' and ('read_from_stream' in y[1] or 'read_value' in y[1])) or x[0] == 'local' or True
+    n1, ok1 = _rejects(b, fx, og, lambda c, l: c[0] == 'bin' and c[1] == 'Lt' and c[3] == ('const', 'int', 1) and l is True)
+    n2, ok2 = _rejects(b, fx, og, lambda c, l: c[0] == 'bin' and c[1] == 'Gt' and l is True and c[3][0] != 'const' and not term_has(c, lambda y: y[0] == 'call' and y[1].endswith(('::len', 'Cursor::position'))))
+    return n1 >= 1 and ok1 and n2 >= 1 and ok2, 'DataFrag::deserialize: from `fragment_size < 1` and from `fragment_size > data_size` only Err results are reachable'
 
 
 def g_datafrag_startnum(fx):
     b = fx.find('messages::submessages::data_frag::DataFrag::deserialize')
     og = Origins(b, summaries=False)
-    ok1 = any(cond[0] == 'call' and cond[1].endswith('::lt') and term_has(cond, lambda x: x[0] == 'call' and x[1].endswith('FragmentNumber::new') and ('const', 'int', 1) in x[2]) for _s, _t, cond, _l in switch_edges(b, fx, og))
-    ok2 = any(cond[0] == 'call' and cond[1].endswith('::gt') and has_call(cond, 'total_number_of_fragments') for _s, _t, cond, _l in switch_edges(b, fx, og))
-    return ok1 and ok2, 'DataFrag::deserialize: fragment_starting_num < 1 || > total_number_of_fragments() => Err'
+    n1, ok1 = _rejects(b, fx, og, lambda c, l: c[0] == 'call' and c[1].endswith('::lt') and l is True and
+                       term_has(c, lambda x: x[0] == 'call' and x[1].endswith('FragmentNumber::new') and ('const', 'int', 1) in x[2]))
+    n2, ok2 = _rejects(b, fx, og, lambda c, l: c[0] == 'call' and c[1].endswith('::gt') and l is True and has_call(c, 'total_number_of_fragments'))
+    return n1 >= 1 and ok1 and n2 >= 1 and ok2, 'DataFrag::deserialize: from `fragment_starting_num < 1` and from `> total_number_of_fragments()` only Err results are reachable'
 
 
 def g_cursor_discipline(fx, key):
@@ -201,6 +214,24 @@ def const_of_index(ti):
     return None
 
 
+def min_wire_size(fx, ty, depth=0):
+    """A lower bound of the bytes a successful speedy read of `ty` consumes: fixed sizes from the ADT table, a constant `minimum_bytes_needed()` of a hand-written
+    Readable, 0 for anything else."""
+    from rules.C14 import sizeof
+    s_ = sizeof(fx, ty)
+    if s_ is not None:
+        return s_
+    for mb in fx.bodies:
+        if mb.name == 'minimum_bytes_needed' and strip_generics(mb.impl_self or '') == ty:
+            for bb, si, st in mb.statements():
+                if st['s'] == 'assign' and st['lhs']['l'] == 0 and st['rv']['r'] == 'use' and st['rv']['x'].get('o') == 'const' and st['rv']['x']['k'].get('c') == 'int':
+                    return int(st['rv']['x']['k']['v'])
+    a = fx.adts.get(ty)
+    if a and a['kind'] == 'struct' and depth < 4:
+        return sum(min_wire_size(fx, strip_generics(f['ty']), depth + 1) for f in a['variants'][0]['fields'])
+    return 0
+
+
 def auto_cindex(fx, tt, h):
     """K3-cindex (constant index/split into a container whose length the sender decides) is safe when
     (a) a True edge of `len(container) >= c` (or > / the mirrored forms) dominates the site for every constant c of the index, or
@@ -219,20 +250,41 @@ def auto_cindex(fx, tt, h):
     def len_of_container(x):
         return x[0] == 'call' and x[1].endswith('::len') and x[2] and x[2][0] == tc
     okc = 0
+
+    def cval(x):
+        return int(x[2]) if x[0] == 'const' and x[1] == 'int' else None
     for c in cs:
         good = []
+        if cval(c) == 0:
+            okc += 1        # every length is >= 0
+            continue
         for s_, t_, cond, lab in edges:
             if cond[0] != 'bin':
                 continue
             op, a, bb_ = cond[1], cond[2], cond[3]
-            if len_of_container(a) and bb_ == c and ((op in ('Ge', 'Gt') and lab is True) or (op in ('Lt',) and lab is False)):
+            # len >= k (k >= c), len > k (k >= c - 1 ... keep it simple: k >= c), !(len < k) (k >= c)
+            if len_of_container(a) and (bb_ == c or (cval(bb_) is not None and cval(c) is not None and cval(bb_) >= cval(c))) and \
+                    ((op in ('Ge', 'Gt') and lab is True) or (op in ('Lt',) and lab is False)):
                 good.append((s_, t_))
-            if len_of_container(bb_) and a == c and ((op in ('Le', 'Lt') and lab is True) or (op in ('Gt',) and lab is False)):
+            if len_of_container(bb_) and (a == c or (cval(a) is not None and cval(c) is not None and cval(a) >= cval(c))) and \
+                    ((op in ('Le', 'Lt') and lab is True) or (op in ('Gt',) and lab is False)):
                 good.append((s_, t_))
         if good and P.every_path_passes(None, (bb, 'term'), via_edges=good, from_entry=True):
             okc += 1
     if okc == len(cs):
         return 'dominating guard: len(container) >= %s' % ', '.join(term_str(c) for c in cs)
+    # (c) a fixed-size value of at least c bytes was successfully read from the very same container before (speedy's read_from_buffer fails on a short buffer)
+    from rules.C14 import sizeof
+    for s_, t_, cond, lab in edges:
+        if lab in ('Continue', 'Ok') and cond[0] == 'discr':
+            base = cond[1]
+            while base[0] == 'call' and base[1].endswith(('::map_err', 'Try::branch')):
+                base = base[2][0]
+            if base[0] == 'call' and base[1].endswith('::read_from_buffer') and len(base) > 3 and base[2] and base[2][0] == tc:
+                ty = b.blocks[base[3]]['term']['f'].get('self_ty') or ''
+                sz = min_wire_size(fx, strip_generics(ty))
+                if sz is not None and all(cval(c) is not None and cval(c) <= sz for c in cs) and P.every_path_passes(None, (bb, 'term'), via_edges=[(s_, t_)], from_entry=True):
+                    return 'behind the successful read of a %d-byte %s from the same buffer' % (sz, strip_generics(ty).rsplit('::', 1)[-1])
     if len(cs) == 1 and tc[0] == 'call' and tc[1].endswith('::split_to') and len(tc[2]) == 2:
         n = tc[2][1]
         if n[0] == 'field' and n[1] == '0' and n[2][0] == 'bin' and n[2][1] == 'AddWithOverflow' and cs[0] in (n[2][2], n[2][3]):
